@@ -1054,6 +1054,19 @@ fn check_constraint(
                 ])
                 .with_notes(vec!["hint: expected scalar or typedef identifier".to_owned()]),
         ),
+        Some(field @ Field { desc: FieldDesc::Flag { .. }, .. }) => diagnostics.push(
+            Diagnostic::error()
+                .with_code(ErrorCode::InvalidConstraintIdentifier)
+                .with_message(format!("invalid constraint identifier `{}`", constraint.id))
+                .with_labels(vec![
+                    constraint.loc.primary(),
+                    field.loc.secondary().with_message(format!(
+                        "`{}` is declared here as condition flag of an optional field",
+                        constraint.id
+                    )),
+                ])
+                .with_notes(vec!["hint: expected scalar or typedef identifier".to_owned()]),
+        ),
         Some(field @ Field { desc: FieldDesc::Scalar { width, .. }, .. }) => {
             match constraint.value {
                 None => diagnostics.push(
